@@ -776,6 +776,7 @@ func open(slot int, fast bool, mode string, v int64, skew, cache int) string {
 			if _, err := t.LoadVersion(v); err != nil {
 				out = errClass(err)
 			} else {
+				h.ensured = v <= lv // Load() verified the index for lv only
 				hs[slot] = h
 				out = fmt.Sprintf("ok %d", lv)
 			}
@@ -954,6 +955,10 @@ type genState struct {
 	views    [3]bool
 	handles  [3]bool
 	allowBad bool // may open fast-on handles outside the trust contract (known finding)
+	// big: more than one leaf. The model decides SaveVersion's "version already exists" branch on
+	// key/value content where the code compares root hashes; for multi-node trees equal content can
+	// hash differently (shape depends on history), so big cases never save from an older version.
+	big bool
 }
 
 func (g *genState) key() string { return kit.Pick(g.r, g.keys) }
@@ -1008,6 +1013,7 @@ func (g *genState) openWriter() {
 	}
 	mode, v := "load", 0
 	switch x := g.r.Intn(100); {
+	case g.big:
 	case x < 10 && g.latest > 0:
 		mode, v = "loadlv", g.anyVer()
 		if v == 0 {
@@ -1124,7 +1130,7 @@ func (g *genState) step() {
 
 func script(w *kit.Out, r *kit.Rand, id string, n int, keys []string, allowBad bool) {
 	w.Case(id)
-	g := &genState{w: w, r: r, keys: keys, allowBad: allowBad}
+	g := &genState{w: w, r: r, keys: keys, allowBad: allowBad, big: len(keys) > 30}
 	for i := 0; i < n; i++ {
 		g.step()
 	}
@@ -1237,7 +1243,7 @@ func gen(w *kit.Out, r *kit.Rand, tier string) {
 	boundary(w)
 	nSmall, nBare, nBig, maxOps, nMal := 500, 40, 30, 90, 400
 	if tier == "thorough" {
-		nSmall, nBare, nBig, maxOps, nMal = 6000, 300, 300, 250, 3000
+		nSmall, nBare, nBig, maxOps, nMal = 4000, 250, 200, 250, 3000
 	}
 	rs := r.Fork()
 	for i := 0; i < nSmall; i++ {
